@@ -1,5 +1,5 @@
 """C14 - WFQ and VirtualClock transmit in virtual-finish-stamp order"""
-from . import sched as S, resources as R, elements, keydomains
+from . import sched as S, resources as R, elements, keydomains, deps
 
 def check(ctx):
     S.run_tables(ctx, 'C14', [('WFQ', '__init__'), ('WFQ', 'update_vtime'), ('WFQ', 'reset_vtime'), ('WFQ', 'run'), ('WFQ', 'serve'),
@@ -10,6 +10,7 @@ def check(ctx):
     elements.departure_bookkeeping_atomic(ctx, 'C14', only=('WFQ', 'VC'))
     keydomains.check(ctx, 'C14', only=('WFQ', 'VC'))
     elements.class_method_sets(ctx, 'C14', only=('WFQ', 'VC'))
+    deps.element_layers(ctx, 'C14')
     return ('Static: WFQ.put (stamp max(F_c, V) + 8*size/(rate*w_c) on every path, V updated before stamping), '
             'update_vtime/reset_vtime, WFQ.run (V advanced after each transmission with the classes backlogged during it), '
             'VC.put (auxVC = max(now, auxVC) + vtick) compared with reference tables; the heap key is a PriorityItem whose '
